@@ -74,7 +74,7 @@ func (h *Handler) handleDiscover(p packet.DHCP4, options packet.DHCP4Options) (d
 	case StateDiscover:
 		if !bytes.Equal(lease.XID, p.XId()) { // new discover packet
 			lease.IPOffer = netip.Addr{}
-		} else if l := h.findByIP(lease.IPOffer); l != nil && l != lease && l.State == StateAllocated {
+		} else if l := h.findByIP(lease.IPOffer); l != nil && l != lease && l.State != StateFree {
 			lease.IPOffer = netip.Addr{} // the address went to another client that was offered it too
 		}
 
